@@ -72,10 +72,10 @@ ASSUME \A i \in 1..N, j \in 1..N, k \in 1..N :
    (Compatible(Catalogue[i], Catalogue[j]) /\ Compatible(Catalogue[j], Catalogue[k]) /\ ~HasOffset(Catalogue[i], Catalogue[k]))
       => VAdd(Factor(Catalogue[i], Catalogue[j]), Factor(Catalogue[j], Catalogue[k])) = Factor(Catalogue[i], Catalogue[k])
 
-Pairs == {[what |-> "pair", a |-> i, b |-> j, an |-> Catalogue[i].name, bn |-> Catalogue[j].name] : i \in 1..N, j \in 1..N}
+Pairs(u) == {[what |-> "pair", a |-> i, b |-> j, an |-> Catalogue[i].name, bn |-> Catalogue[j].name] : i \in 1..N, j \in 1..N}
 (* query sequences: every order of a few unit pairs, answers must not depend on the order *)
 SeqUnits == {1, 4, 6, 18, 20, 40, 44, 46, 50, 52}      \* m, km, mm, m/s, km/h, W, "", %, J/s, L/m2
 QPairs == {<<i, j>> : i \in SeqUnits, j \in SeqUnits}
-Seqs == {[what |-> "seq", qs |-> <<p, q, r, <<q[2], q[1]>>, p>>, names |-> [k \in 1..N |-> Catalogue[k].name]] :
+Seqs(u) == {[what |-> "seq", qs |-> <<p, q, r, <<q[2], q[1]>>, p>>, names |-> [k \in 1..N |-> Catalogue[k].name]] :
            p \in QPairs, q \in QPairs, r \in {<<1, 4>>, <<6, 52>>, <<18, 20>>, <<44, 46>>, <<40, 50>>}}
 =============================================================================
